@@ -57,6 +57,16 @@ def forall_check_loops(P, F, sk):
         if not all(h in dom[sb] for sb in sblocks):
             continue
         backs = [b for b in body if h in [s for s in F.blocks[b]['succs'] if s is not None]]
+        # a local whose value this loop stores into an array element stands for that element: `int v=read(); if(bad(v))
+        # goto err; a[j]=v;` checks a[j] just as `if(bad(a[j]))` does
+        env = {}
+        for n in F.pos:
+            nd = F.ex[n]
+            if nd['k'] == 'assign' and nd['op'] == '=' and F.pos[n][0] in body:
+                l = F.ex[F.strip_casts(nd['c'][0])]
+                r = F.ex[F.strip_casts(nd['c'][1])]
+                if l['k'] == 'sub' and r['k'] == 'ref' and r['decl']['kind'] == 'var':
+                    env[r['decl']['id']] = sk.canon(F, F.strip_casts(nd['c'][0]), {})
         for b in body:
             t = F.blocks[b].get('term')
             if not t or t.get('cond') is None or len(F.blocks[b]['succs']) != 2 or b == h:
@@ -68,7 +78,7 @@ def forall_check_loops(P, F, sk):
                 if s is None or s in body:
                     continue
                 if not any(reaches(F, s, sb) for sb in sblocks):
-                    out.append((h, t['cond'], pol, canon(P, F, t['cond'], sk)))
+                    out.append((h, t['cond'], pol, sk.canon(F, t['cond'], env) if env else canon(P, F, t['cond'], sk)))
     return out
 
 
